@@ -9,6 +9,10 @@ use tokio::io::{AsyncRead, AsyncWrite, ReadBuf};
 use tokio::sync::Notify;
 use tokio::time::Instant;
 
+/// global order of observable events (accepted writes and adapter calls)
+pub static SEQ: std::sync::atomic::AtomicU64 = std::sync::atomic::AtomicU64::new(0);
+pub fn next_seq() -> u64 { SEQ.fetch_add(1, std::sync::atomic::Ordering::SeqCst) }
+
 #[derive(Clone, Debug)]
 pub enum WriteResp {
     Pending,        // poll_write returns Pending once (the harness wakes the writer later)
@@ -22,6 +26,7 @@ pub struct PipeState {
     pub rd_waker: Option<Waker>,
     pub wr_waker: Option<Waker>,
     pub out_log: Vec<(u64, Vec<u8>)>,      // accepted chunks (virtual ms, bytes)
+    pub out_seq: Vec<u64>,                 // global sequence number of each accepted chunk
     pub write_script: VecDeque<WriteResp>, // empty = accept everything
     pub reads: Vec<(u64, usize)>,          // (time, bytes handed to the server) per poll_read
     pub write_calls: Vec<(u64, usize, i64)>, // (time, offered, accepted or -1 for Pending)
@@ -40,7 +45,7 @@ impl Pipe {
         Pipe {
             st: Arc::new(Mutex::new(PipeState {
                 start: Instant::now(), inq: VecDeque::new(), eof: false, rd_waker: None, wr_waker: None,
-                out_log: Vec::new(), write_script: VecDeque::new(), reads: Vec::new(), write_calls: Vec::new(),
+                out_log: Vec::new(), out_seq: Vec::new(), write_script: VecDeque::new(), reads: Vec::new(), write_calls: Vec::new(),
                 shutdown: false, max_read_chunk: 0,
             })),
             out_notify: Arc::new(Notify::new()),
@@ -101,6 +106,7 @@ impl AsyncWrite for ServerEnd {
                 let n = n.min(buf.len()).max(if buf.is_empty() { 0 } else { 1 });
                 s.write_calls.push((t, buf.len(), n as i64));
                 s.out_log.push((t, buf[..n].to_vec()));
+                s.out_seq.push(next_seq());
                 drop(s);
                 notify.notify_waiters();
                 Poll::Ready(Ok(n))
